@@ -40,7 +40,9 @@ TracePublish ==
          full  == e.maxdepth > 0 /\ need > 0 /\ (IF e.drop = "drop_oldest" THEN need > e.queuedn ELSE TRUE)
          same  == e.preh = e.posth /\ e.added = <<>> /\ e.removed = <<>> /\ e.changed = <<>>
          idx   == e.index + 1
-     IN /\ Chk("structured", e.status \notin Success => (e.code # "" /\ e.detail /\ e.published = -1))
+     IN \* the harness established the queue situation the frame names
+        /\ Chk("frame", f.lim = "none" \/ (e.maxdepth = f.depth /\ e.active = f.depth - f.room /\ e.drop = f.lim))
+        /\ Chk("structured", e.status \notin Success => (e.code # "" /\ e.detail /\ e.published = -1))
         /\ IF rr # {} \/ off # {}
            THEN \* any offending item or request-level problem: nothing stored, structured error naming an offender
                 /\ Chk("refused", e.status \notin Success)
